@@ -16,24 +16,29 @@ def int_valued(w):
 
 
 def expand(records):
-    """Flatten what TLC printed (grid, one record per operand / per operand pair) into cases. No space is defined here."""
+    """Flatten what TLC printed (grid, one record per operand / per operand pair) into cases. No space is defined here:
+    which operands, which operators, which target forms and which spellings of a literal go together is in the records."""
     grid = [r for r in records if r.get("kind") == "grid"]
     if len(grid) != 1:
         raise Machinery("enumeration printed %d grid records" % len(grid))
     vals = grid[0]["vals"]
+    lits = grid[0]["lits"]                      # per value: its spellings as source text [{sp, t}]
     val = lambda i: vals[i - 1]
+    spell = lambda i, k: lits[i - 1][k - 1]["t"]
     cases, seen = [], set()
 
     def add(**c):
         base = dict(f=c["f"], op=c.get("op", ""), tgt=c.get("tgt", ""), pre=bool(c.get("pre", False)),
-                    a=c.get("a", UNDEF), b=c.get("b", UNDEF), c=c.get("c", UNDEF), intrep=False, tree={"t": "none"})
+                    a=c.get("a", UNDEF), b=c.get("b", UNDEF), c=c.get("c", UNDEF),
+                    la=c.get("la", []), lb=c.get("lb", []), lc=c.get("lc", []), intrep=False, tree={"t": "none"})
         k = json.dumps(base, sort_keys=True)
         if k in seen:
             return
         seen.add(k)
         base["id"] = len(cases)
         cases.append(base)
-        if any(int_valued(base[x]) for x in ("a", "b", "c")):
+        written = base["la"] or base["lb"] or base["lc"]          # a literal decides its own representation
+        if not written and any(int_valued(base[x]) for x in ("a", "b", "c")):
             d = dict(base)
             d["intrep"] = True
             d["id"] = len(cases)
@@ -42,14 +47,20 @@ def expand(records):
     for r in records:
         if r.get("kind") == "single":
             a = val(r["a"])
-            for op in r["un"]:
-                for tgt in r["untargets"]:
-                    add(f="un", op=op, tgt=tgt, a=a)
-            for op in r["upd"]:
-                for tgt in r["targets"]:
-                    for pre in (True, False):
-                        add(f="upd", op=op, tgt=tgt, pre=pre, a=a)
-            add(f="cond", c=a, a=val(r["cond"]["a"]), b=val(r["cond"]["b"]))
+            forms = [[]] + [spell(r["a"], k) for k in r["lit"]]
+            ca, cb = r["cond"]["a"], r["cond"]["b"]
+            for la in forms:
+                for op in r["un"]:
+                    for tgt in r["untargets"]:
+                        add(f="un", op=op, tgt=tgt, a=a, la=la)
+                for op in r["upd"]:
+                    for tgt in r["targets"]:
+                        for pre in (True, False):
+                            add(f="upd", op=op, tgt=tgt, pre=pre, a=a, la=la)
+                if la:
+                    add(f="cond", c=a, a=val(ca), b=val(cb), lc=la, la=spell(ca, 1), lb=spell(cb, 1))
+                else:
+                    add(f="cond", c=a, a=val(ca), b=val(cb))
         elif r.get("kind") == "pair":
             a, b = val(r["a"]), val(r["b"])
             for op in r["bin"]:
@@ -60,23 +71,38 @@ def expand(records):
             if r["cmpd"]:
                 for tgt in r["targets"]:
                     add(f="asg", tgt=tgt, a=a, b=b)
-    return vals, cases
+            for cb in r["lit"]:
+                la, lb = spell(r["a"], cb["sa"]), spell(r["b"], cb["sb"])
+                for op in cb["bin"]:
+                    add(f="bin", op=op, a=a, b=b, la=la, lb=lb)
+                for op in cb["cmpd"]:
+                    for tgt in r["targets"]:
+                        add(f="cmpd", op=op, tgt=tgt, a=a, b=b, la=la, lb=lb)
+                if cb["cmpd"]:
+                    for tgt in r["targets"]:
+                        add(f="asg", tgt=tgt, a=a, b=b, la=la, lb=lb)
+    return grid[0], cases
 
 
 BIN_TREE = ["+", "-", "*", "/", "%", "&", "|", "^", "<<", ">>", ">>>", "<", "<=", ">", ">=", "==", "!=", "===", "!==", "&&", "||", ","]
 UN_TREE = ["neg", "pos", "!", "~", "typeof", "void"]
 
 
-def random_tree(rnd, vals, depth):
+def random_tree(rnd, vals, lits, idxs, depth):
+    """leaves: a grid value, handed over as a host value (with a representation flag) or written as one of its spellings"""
     if depth == 0 or rnd.random() < 0.15:
-        v = rnd.choice(vals)
-        return {"t": "lit", "v": v, "ir": bool(int_valued(v) and rnd.random() < 0.5)}
+        i = rnd.choice(idxs)
+        v = vals[i]
+        if rnd.random() < 0.4:
+            return {"t": "lit", "v": v, "ir": False, "lt": rnd.choice(lits[i])["t"]}
+        return {"t": "lit", "v": v, "ir": bool(int_valued(v) and rnd.random() < 0.5), "lt": []}
     p = rnd.random()
+    sub = lambda: random_tree(rnd, vals, lits, idxs, depth - 1)
     if p < 0.7:
-        return {"t": "bin", "op": rnd.choice(BIN_TREE), "l": random_tree(rnd, vals, depth - 1), "r": random_tree(rnd, vals, depth - 1)}
+        return {"t": "bin", "op": rnd.choice(BIN_TREE), "l": sub(), "r": sub()}
     if p < 0.9:
-        return {"t": "un", "op": rnd.choice(UN_TREE), "x": random_tree(rnd, vals, depth - 1)}
-    return {"t": "cond", "c": random_tree(rnd, vals, depth - 1), "x": random_tree(rnd, vals, depth - 1), "y": random_tree(rnd, vals, depth - 1)}
+        return {"t": "un", "op": rnd.choice(UN_TREE), "x": sub()}
+    return {"t": "cond", "c": sub(), "x": sub(), "y": sub()}
 
 
 def run_tlc(*a, **kw):
@@ -140,19 +166,28 @@ def run(rep):
     # 1. model-check the reference's own laws while TLC enumerates the case space
     res = run_tlc(rep.pid, "C06", ENUM_CFG, env={"TIER": rep.tier}, timeout=1500, tag="enum", heap="4g")
     rep.add_tlc("C06.Enum+Laws", res)
-    vals, cases = expand(res.records)
+    grid, cases = expand(res.records)
+    vals, lits, ngrid = grid["vals"], grid["lits"], grid["ngrid"]
+    uni = set(json.dumps(v) for v in vals[ngrid:])
     if len(cases) < 5000:
         raise Machinery("enumeration produced only %d cases" % len(cases))
+    nlit = sum(1 for c in cases if c["la"] or c["lb"] or c["lc"])
+    nuni = sum(1 for c in cases if any(x in uni for x in (json.dumps(c["a"]), json.dumps(c["b"]), json.dumps(c["c"]))))
     rep.spaces.append({"space": "operator x operand grid^2 x target form x number representation (TLC-enumerated)",
-                       "grid": len(vals), "cases": len(cases), "complete": True})
+                       "grid": ngrid, "cases": len(cases) - nlit - nuni, "complete": True})
+    rep.spaces.append({"space": "the same with the operands written as source literals, every spelling (TLC-enumerated)",
+                       "cases": nlit, "complete": True})
+    rep.spaces.append({"space": "strings with a look-alike character in every position of the numeric-string grammar x operators (TLC-enumerated)",
+                       "strings": len(vals) - ngrid, "cases": nuni, "complete": True})
     # seeded random expression trees over the grid (spec-level JSON, judged by TLC)
     rnd = random.Random(rep.seed)
     ntrees = 1500 if quick else 30000
     trees = []
+    core, every = list(range(31)), list(range(len(vals)))
     for i in range(ntrees):
-        t = random_tree(rnd, vals[:31] if rnd.random() < 0.7 else vals, rnd.choice([1, 2, 3, 3, 4]))
+        t = random_tree(rnd, vals, lits, core if rnd.random() < 0.7 else every, rnd.choice([1, 2, 3, 3, 4]))
         trees.append({"id": len(cases) + i, "f": "tree", "op": "", "tgt": "", "pre": False, "a": UNDEF, "b": UNDEF, "c": UNDEF,
-                      "intrep": False, "tree": t})
+                      "la": [], "lb": [], "lc": [], "intrep": False, "tree": t})
     rep.spaces.append({"space": "random expression trees of depth <= 4 over the grid (seeded)", "cases": len(trees), "complete": False})
     allc = cases + trees
     # 2. replay into the engine
@@ -206,6 +241,8 @@ def show_tree(t):
     from checks.c06_driver import JS_OP
     k = t["t"]
     if k == "lit":
+        if t.get("lt"):
+            return "`" + wire.from_units(t["lt"]) + "`"
         return wire.show(t["v"]) + ("i" if t.get("ir") else "")
     if k == "un":
         return "(" + JS_OP.get(t["op"], t["op"]) + " " + show_tree(t["x"]) + ")"
@@ -219,17 +256,22 @@ def show_case(c):
     ir = " [int repr]" if c.get("intrep") else ""
     if f == "tree":
         return "tree " + show_tree(c["tree"])
+
+    def sh(nm):
+        if c.get("l" + nm):
+            return "`" + wire.from_units(c["l" + nm]) + "`"
+        return wire.show(c[nm])
     if f == "bin":
-        return "%s %s %s%s" % (wire.show(c["a"]), c["op"], wire.show(c["b"]), ir)
+        return "%s %s %s%s" % (sh("a"), c["op"], sh("b"), ir)
     if f == "un":
-        return "%s %s (%s)%s" % (c["op"], wire.show(c["a"]), c["tgt"], ir)
+        return "%s %s (%s)%s" % (c["op"], sh("a"), c["tgt"], ir)
     if f == "upd":
-        return ("%s%s" if c["pre"] else "%.0s%s%s") % ((c["op"], "t") if c["pre"] else ("", "t", c["op"])) + " with t=%s (%s)%s" % (wire.show(c["a"]), c["tgt"], ir)
+        return ("%s%s" if c["pre"] else "%.0s%s%s") % ((c["op"], "t") if c["pre"] else ("", "t", c["op"])) + " with t=%s (%s)%s" % (sh("a"), c["tgt"], ir)
     if f == "cmpd":
-        return "t %s= %s with t=%s (%s)%s" % (c["op"], wire.show(c["b"]), wire.show(c["a"]), c["tgt"], ir)
+        return "t %s= %s with t=%s (%s)%s" % (c["op"], sh("b"), sh("a"), c["tgt"], ir)
     if f == "asg":
-        return "t = %s with t=%s (%s)%s" % (wire.show(c["b"]), wire.show(c["a"]), c["tgt"], ir)
-    return "%s ? %s : %s%s" % (wire.show(c["c"]), wire.show(c["a"]), wire.show(c["b"]), ir)
+        return "t = %s with t=%s (%s)%s" % (sh("b"), sh("a"), c["tgt"], ir)
+    return "%s ? %s : %s%s" % (sh("c"), sh("a"), sh("b"), ir)
 
 
 def show_out(o):
@@ -245,4 +287,6 @@ def show_exp(e):
 
 
 def slim(r):
-    return {k: v for k, v in r.items() if k in ("f", "op", "tgt", "pre", "intrep")}
+    d = {k: v for k, v in r.items() if k in ("f", "op", "tgt", "pre", "intrep")}
+    d["written"] = bool(r.get("la") or r.get("lb") or r.get("lc"))
+    return d
